@@ -180,6 +180,9 @@ func (da *DistributedAllocator) Allocate(ctx context.Context, subscriberID strin
 	da.mu.Lock()
 	defer da.mu.Unlock()
 
+	// A subscriber that already holds an allocation keeps it if re-saving fails
+	heldBefore := da.holdsLocked(subscriberID)
+
 	var prefix *net.IPNet
 	var epoch uint64
 
@@ -213,11 +216,13 @@ func (da *DistributedAllocator) Allocate(ctx context.Context, subscriberID strin
 	}
 
 	if err := da.saveAllocation(ctx, alloc); err != nil {
-		// Rollback local allocation
-		if da.mode == PoolModeLease {
-			da.epochAllocator.Release(ctx, subscriberID)
-		} else {
-			da.allocator.Release(subscriberID)
+		// Rollback local allocation (only one made by this call)
+		if !heldBefore {
+			if da.mode == PoolModeLease {
+				da.epochAllocator.Release(ctx, subscriberID)
+			} else {
+				da.allocator.Release(subscriberID)
+			}
 		}
 		return nil, fmt.Errorf("save allocation: %w", err)
 	}
@@ -229,6 +234,9 @@ func (da *DistributedAllocator) Allocate(ctx context.Context, subscriberID strin
 func (da *DistributedAllocator) AllocateWithMAC(ctx context.Context, subscriberID string, mac net.HardwareAddr) (*net.IPNet, error) {
 	da.mu.Lock()
 	defer da.mu.Unlock()
+
+	// A subscriber that already holds an allocation keeps it if re-saving fails
+	heldBefore := da.holdsLocked(subscriberID)
 
 	var prefix *net.IPNet
 	var epoch uint64
@@ -260,10 +268,12 @@ func (da *DistributedAllocator) AllocateWithMAC(ctx context.Context, subscriberI
 	}
 
 	if err := da.saveAllocation(ctx, alloc); err != nil {
-		if da.mode == PoolModeLease {
-			da.epochAllocator.Release(ctx, subscriberID)
-		} else {
-			da.allocator.Release(subscriberID)
+		if !heldBefore {
+			if da.mode == PoolModeLease {
+				da.epochAllocator.Release(ctx, subscriberID)
+			} else {
+				da.allocator.Release(subscriberID)
+			}
 		}
 		return nil, fmt.Errorf("save allocation: %w", err)
 	}
@@ -300,6 +310,18 @@ func (da *DistributedAllocator) Release(ctx context.Context, subscriberID string
 	da.mu.Lock()
 	defer da.mu.Unlock()
 
+	// Remove the stored record first: if that fails the local allocation is
+	// kept, so memory and store still agree.
+	if da.holdsLocked(subscriberID) {
+		if err := da.deleteAllocation(ctx, subscriberID); err != nil {
+			return err
+		}
+		if da.mode == PoolModeLease {
+			return da.epochAllocator.Release(ctx, subscriberID)
+		}
+		return da.allocator.Release(subscriberID)
+	}
+
 	// Release from appropriate allocator
 	if da.mode == PoolModeLease {
 		if err := da.epochAllocator.Release(ctx, subscriberID); err != nil {
@@ -312,6 +334,14 @@ func (da *DistributedAllocator) Release(ctx context.Context, subscriberID string
 	}
 
 	return da.deleteAllocation(ctx, subscriberID)
+}
+
+// holdsLocked reports whether the subscriber has a local allocation. Caller holds da.mu.
+func (da *DistributedAllocator) holdsLocked(subscriberID string) bool {
+	if da.mode == PoolModeLease {
+		return da.epochAllocator.Lookup(subscriberID) != nil
+	}
+	return da.allocator.Lookup(subscriberID) != nil
 }
 
 // Get returns the allocation for a subscriber.
